@@ -45,12 +45,11 @@ def annotate(tests):
 
 def run(ctx):
     thorough = ctx.tier == "thorough"
-    ctx.design_check("Client", "MCClient_calls.cfg", workers=8, timeout=3000)
-    ctx.design_check("Client", "MCClient_sub.cfg", workers=8, timeout=3000)
-    # the subscription's cancel function racing the loss of the connection
-    ctx.design_check("ClientSub", "MCClientSub.cfg", workers=8, timeout=3000)
+    # side by side: calls / subscription + callback / the subscription's cancel function racing the loss /
     # the shutdown held between the reader's decision and the transport's Close (half-dead connection)
-    ctx.design_check("ClientHold", "MCClientHold_thorough.cfg" if thorough else "MCClientHold.cfg", workers=8, timeout=3400)
+    ctx.design_check_many([("Client", "MCClient_calls.cfg"), ("Client", "MCClient_sub.cfg"), ("ClientSub", "MCClientSub.cfg"),
+                           ("ClientHold", "MCClientHold_thorough.cfg" if thorough else "MCClientHold.cfg")],
+                          workers_each=4, parallel=4, timeout=3400)
     replayed = 0
     races = 0
     cfgs = [("GenClient", "GenClient_calls.cfg"), ("GenClient", "GenClient_sub.cfg"), ("GenClientHold", "GenClientHold.cfg"),
